@@ -833,6 +833,60 @@ def native_checks():
         except Exception as e:  # noqa
             failures.append(dict(key="datetime-calendar", what="DateTime(rule=%r).validated(%r) raised %s: %s" % (
                 rule, cell, type(e).__name__, e), args=dict(rule=rule, cell=cell)))
+    # Decimal cells through the real decimal module: the text handed to the parser is the cell with the thousands
+    # separators removed and the decimal separator turned into '.', nothing else (exponents, signs, blanks stay)
+    from cutplace import data as _data
+    dec_texts = ["17", "17.25", "-0.5", "+3", "1e3", "5E+6", "25e-2", "1E+3", "1.5e3", "12 ", " 12", ".5", "5.", "1,234.5", "1.234,5",
+                 "1,5e3", "1_0", "0x10", "abc", "1.2.3", "1,2,3", "--1", "1e", "e3", "\u0661\u0662", "\uff11", "1\u00a0000", "", "-", ".", ","]
+    for dsep, tsep in SEPARATORS:
+        df = ff.data_format("delimited", None, [(_data.KEY_DECIMAL_SEPARATOR, dsep), (_data.KEY_THOUSANDS_SEPARATOR, tsep)])
+        f = ff.build_field("Decimal", False, "", "-100000...100000", df)
+        for cell in dec_texts:
+            if cell == "":
+                continue
+            n += 1
+            tr = translate_oracle(cell, dsep, tsep)
+            exp_value = None
+            if tr is not None:
+                try:
+                    exp_value = decimal.Decimal("".join(tr))
+                    if not exp_value.is_finite() or not (-100000 <= exp_value <= 100000):
+                        exp_value = None
+                except decimal.InvalidOperation:
+                    exp_value = None
+            try:
+                got = f.validated(cell)
+            except errors.FieldValueError:
+                got = None
+            except Exception as e:  # noqa
+                failures.append(dict(key="decimal-native", what="Decimal(separators %r/%r).validated(%r) raised %s: %s" % (
+                    dsep, tsep, cell, type(e).__name__, e), args=dict(cell=cell, dsep=dsep, tsep=tsep)))
+                continue
+            if (got is None) != (exp_value is None) or (got is not None and got != exp_value):
+                failures.append(dict(key="decimal-native", what="Decimal(decimal separator %r, thousands separator %r).validated(%r) -> %r, "
+                                     "expected %r" % (dsep, tsep, cell, got, exp_value), args=dict(cell=cell, dsep=dsep, tsep=tsep)))
+    # RegEx / Pattern beyond ASCII through the real re module: case is ignored for every letter, \\w and \\d are Unicode-aware
+    rx_cases = [("RegEx", "[a-z\u00e4\u00f6\u00fc]+$", "M\u00dcLLER", True), ("RegEx", "\\w+$", "M\u00fcller", True),
+                ("RegEx", "\u00e9vry|\u00e5rhus|k\u00f6ln", "K\u00d6LN", True), ("RegEx", "stra\u00dfe", "STRA\u1e9eE", True),
+                ("RegEx", "k\u00f6ln", "koln", False), ("RegEx", "\\d+$", "\u0661\u0662\u0663", True), ("RegEx", "a.c", "a\nc", False),
+                ("RegEx", "^b", "a\nb", False), ("RegEx", "a$", "a\nb", True), ("RegEx", "ab", "xab", False), ("RegEx", "ab", "abx", True),
+                ("Pattern", "k\u00f6ln*", "K\u00d6LN-Deutz", True), ("Pattern", "k?ln", "k\u00f6ln", True), ("Pattern", "k?ln", "koeln", False),
+                ("Pattern", "*.txt", "A.TXT", True), ("Pattern", "a*", "ba", False), ("Pattern", "[ab]x", "bx", True), ("Pattern", "a?", "a\n", True)]
+    for t, rule, cell, exp in rx_cases:
+        n += 1
+        try:
+            f = ff.build_field(t, False, "", rule, ff.data_format("delimited"))
+            try:
+                f.validated(cell)
+                got = True
+            except errors.FieldValueError:
+                got = False
+            if got != exp:
+                failures.append(dict(key="regex-native", what="%s(rule=%r).validated(%r): accepted=%s expected %s" % (t, rule, cell, got, exp),
+                                     args=dict(type=t, rule=rule, cell=cell)))
+        except Exception as e:  # noqa
+            failures.append(dict(key="regex-native", what="%s(rule=%r).validated(%r) raised %s: %s" % (t, rule, cell, type(e).__name__, e),
+                                 args=dict(type=t, rule=rule, cell=cell)))
     # result types through the real callees
     import time as _time
     cases = [("Integer", "", "0...99", "42", 42), ("Decimal", "", "0...99", "4.50", decimal.Decimal("4.50")),
